@@ -294,6 +294,8 @@ class Dimension:
                                  data_array, "DataArray", index)
 
     def link_data_frame(self, data_frame, index):
+        # validate first: a refused link must not cost the dimension the link it has
+        util.check_attr_type(index, int)
         if not 0 <= index < len(data_frame.columns):
             raise OutOfBounds("DataFrame index is out of bounds", index)
         if self.has_link:
@@ -539,6 +541,8 @@ class RangeDimension(Dimension):
         super(RangeDimension, self).link_data_array(data_array, index)
 
     def link_data_frame(self, data_frame, index):
+        # validate first: a refused link must not cost the dimension its ticks
+        util.check_attr_type(index, int)
         if not 0 <= index < len(data_frame.columns):
             raise OutOfBounds("DataFrame index is out of bounds", index)
         if "ticks" in self._h5group:
@@ -605,7 +609,8 @@ class RangeDimension(Dimension):
         if self.has_link:
             # unlick object and set ticks
             self.remove_link()
-        self._h5group.write_data("ticks", ticks)
+        # the type is given: an empty list of ticks must not fail after the link is gone
+        self._h5group.write_data("ticks", ticks, dtype=DataType.Double)
 
     @property
     def label(self):
